@@ -197,33 +197,53 @@ def shard_base(arg) -> E.Tally:
     return t
 
 
+def _do_edit(t: E.Tally, rel: str, eav: bool, lines: list, lab: str, pos: int, hist: list, others, cache: dict) -> bool:
+    """Run one edited history with all its oracles; False if the edit is not applicable."""
+    if lab.startswith("nbarray"):
+        if eav or _splits_fragments(lines, pos):
+            return False  # (with eavesdropping a neighbour's zones are legitimately picked up; between two halves of OUR array any packet changes the join)
+        if "base_final" not in cache:
+            cache["base_final"] = run_history(E.Tally(), GC.retime(lines), {}, eavesdrop=eav, check_at=set(), snap_at=set(), label="baseline") or {}
+    hist = GC.retime(hist)
+    n = len(hist)
+    check = {p for p in (pos - 1, pos, pos + 1, pos + 2, pos + 3, n - 1) if 0 <= p < n} | set(range(pos, n, 25))
+    if lab.startswith("splice") or lab.startswith("clone"):
+        check |= set(range(pos, min(n, pos + 46), 4))
+    snap = {p for p in (pos + 1, pos + 10, n - 1) if 0 <= p < n}
+    if lab.startswith("splice") and not eav:
+        snap = {n - 1}  # (a snapshot cycle injects a probe packet: keep the run comparable with the unspliced one)
+    rep = {"log": rel, "eav": eav, "edit": lab, "others": others}
+    span = None
+    if (lab.startswith("splice") or lab.startswith("clone")) and not eav and not _splits_fragments(lines, pos):
+        span = (pos, pos + (n - len(lines)))
+        snap = {n - 1}
+    if lab.startswith("nbarray"):
+        snap, check = set(), set()  # (the same reads as the baseline run: a read that finds a message expired drops it)
+    res = run_history(t, hist, rep, eavesdrop=eav, check_at=check - (set(range(span[0], span[1])) if span else set()), snap_at=snap, label=f"{rel}[{lab}]", quiet_span=span)
+    if lab.startswith("nbarray") and res is not None and cache.get("base_final"):
+        for cid, want in cache["base_final"].items():
+            if res.get(cid) != want:
+                t.bad("C13:neighbour-array-changes-known-system", f"{rel}[{lab}]: a neighbour's {hist[pos][2].split()[-3]} array heard 20 ms before ours (line {pos}) changed the final schema/params/status of {cid}", rep)
+                break
+    return True
+
+
 def shard_edits(arg) -> E.Tally:
     rel, eav, i, nsh, others, quick = arg
     logcap.install()
     t = E.Tally()
     lines = GC.log(rel)
     splice = [GC.log(o) for o in others]
+    cache: dict = {}
     for j, (lab, pos, hist) in enumerate(GC.single_edits(lines, splice_from=splice)):
         if j % nsh != i:
             continue
-        hist = GC.retime(hist)
-        n = len(hist)
-        check = {p for p in (pos - 1, pos, pos + 1, pos + 2, pos + 3, n - 1) if 0 <= p < n} | set(range(pos, n, 25))
-        if lab.startswith("splice") or lab.startswith("clone"):
-            check |= set(range(pos, min(n, pos + 46), 4))
-        snap = {p for p in (pos + 1, pos + 10, n - 1) if 0 <= p < n}
-        if lab.startswith("splice") and not eav:
-            snap = {n - 1}  # (a snapshot cycle injects a probe packet: keep the run comparable with the unspliced one)
-        rep = {"log": rel, "eav": eav, "edit": lab, "others": others}
-        span = None
-        if (lab.startswith("splice") or lab.startswith("clone")) and not eav and not _splits_fragments(lines, pos):
-            span = (pos, pos + (n - len(lines)))
-            snap = {n - 1}
-        res = run_history(t, hist, rep, eavesdrop=eav, check_at=check - (set(range(span[0], span[1])) if span else set()), snap_at=snap, label=f"{rel}[{lab}]", quiet_span=span)
+        if not _do_edit(t, rel, eav, lines, lab, pos, hist, others, cache):
+            continue
         t.nontrivial += 1
         t.by[lab.split("@")[0].rstrip("0123456789")] += 1
         if j % 601 == 0:
-            t.sample({"log": rel, "edit": lab, "eavesdrop": eav, "length": n})
+            t.sample({"log": rel, "edit": lab, "eavesdrop": eav, "length": len(hist)})
     return t
 
 
@@ -269,7 +289,7 @@ def run(ctx) -> None:
         total,
         rule="histories = the repo's system / schema / eavesdrop / device / fault-log logs (quick: those <= 200 lines) with eavesdropping off and on, fed "
         "packet by packet to a real Gateway: unedited (every view after every packet, get_state+restore at every 5th / every prefix) and EVERY single "
-        "edit: delete line i, duplicate line i, swap i/i+1, splice 40 lines of another system at every position, and every extreme-value field mutation "
+        "edit: delete line i, duplicate line i, swap i/i+1, splice 40 lines of another system at every position, a neighbour's array broadcast 20 ms before each of ours, contradicting 000C statements, index re-addressing, and every extreme-value field mutation "
         "that stays inside the schema regex at every line; views are evaluated around the edit, every 25th packet and at the end; get_state + restore "
         "+ a received packet + a sent command at the edit, 10 packets later and at the end; spliced runs are compared with the unspliced run for the "
         "known system. distinct = histories",
@@ -288,12 +308,5 @@ def replay(rep: dict):
         splice = [GC.log(o) for o in rep.get("others", [])]
         for lab, pos, hist in GC.single_edits(lines, splice_from=splice):
             if lab == rep["edit"]:
-                hist = GC.retime(hist)
-                n = len(hist)
-                snap = {p for p in (pos + 1, pos + 10, n - 1) if 0 <= p < n}
-                span = None
-                if (lab.startswith("splice") or lab.startswith("clone")) and not rep["eav"] and not _splits_fragments(lines, pos):
-                    span = (pos, pos + (n - len(lines)))
-                    snap = {n - 1}
-                run_history(t, hist, rep, eavesdrop=rep["eav"], check_at=set(range(max(0, pos - 1), n)) - (set(range(span[0], span[1])) if span else set()), snap_at=snap, label=f"{rep['log']}[{lab}]", quiet_span=span)
+                _do_edit(t, rep["log"], rep["eav"], lines, lab, pos, hist, rep.get("others", []), {})
     return [(k, v["what"]) for k, v in t.viol.items()]
